@@ -310,6 +310,46 @@ def rule_acceptance(chk, ci, concrete):
 # context wiring / cross-array indices
 # ---------------------------------------------------------------------------
 
+def rule_cached_entry(chk):
+    """NNPSBase.get_nearest_particles (the Python-level query), per path with locals substituted: with the cache on, the answer comes from cache[dst*narrays + src] - the
+    slot the compiled loops and set_context use for that pair - after the context was switched when the pair differs from the current one (shared with C09: a list filed
+    under the reverse pair is handed to the pair-symmetric equations of that pair)"""
+    from verif_static import paths as PT
+    t = M.cy(NB)
+    base = M.find_class(t, 'NNPSBase')
+    f3 = M.find_func(base, 'get_nearest_particles')
+    pn = [a.arg for a in f3.args.args if a.arg != 'self']
+    src, dst, did, out = (pn + ['?'] * 4)[:4]
+    ok, why, ncached, nplain = True, '', 0, 0
+    for p_ in PT.enumerate_paths(M.docstring_stripped(f3.body)):
+        if p_[-1].kind != 'return' or p_[-1].node.value is None:
+            ok, why = False, 'a path returns nothing'
+            continue
+        cached_t = PT.took(p_, True, 'self.use_cache')
+        rv = PT.resolve(p_[-1].node.value, p_[-1].env)
+        if cached_t is None:
+            nplain += 1
+            if not (isinstance(rv, ast.Call) and compact(rv.func) == 'self.get_nearest_particles_no_cache' and [compact(x) for x in rv.args[:4]] == [src, dst, did, out]):
+                ok, why = False, 'without the cache the query is %s' % U(rv)[:80]
+            continue
+        ncached += 1
+        if not (isinstance(rv, ast.Call) and isinstance(rv.func, ast.Attribute) and rv.func.attr == 'get_neighbors' and
+                same(rv.func.value, 'self.cache[%s*self.narrays+%s]' % (dst, src)) and [compact(x) for x in rv.args] == [src, did, out]):
+            ok, why = False, 'with the cache on the answer is %s' % U(rv)[:100]
+            continue
+        differs = PT.took(p_, True, 'self.src_index != %s or self.dst_index != %s' % (src, dst))
+        same_ctx = PT.took(p_, False, 'self.src_index != %s or self.dst_index != %s' % (src, dst))
+        if same_ctx is None:
+            same_ctx = PT.took(p_, True, 'self.src_index == %s and self.dst_index == %s' % (src, dst))
+        sets_ = [i for i, c, cal, env in PT.calls_on(p_) if cal == 'self.set_context' and [compact(PT.resolve(x, env)) for x in c.args] == [src, dst]]
+        if differs is None and same_ctx is None and not sets_:
+            ok, why = False, 'the context is not compared with the pair asked for'
+        elif differs is not None and not [i for i in sets_ if i > differs]:
+            ok, why = False, 'the context is not switched when the pair differs'
+    chk.decide(ok and ncached > 0 and nplain > 0, 'context-wiring', 'cached-entry', node=f3, file=NB, func='NNPSBase.get_nearest_particles',
+               detail_bad='the cached entry does not select cache[dst*narrays + src] after ensuring the context is (src, dst): %s' % why, detail_ok='cache[dst*narrays+src], context switched when the pair changes')
+
+
 def rule_context(chk, ci, concrete):
     n = 0
     for rel, cls in concrete:
@@ -746,20 +786,7 @@ def rule_duplicates(chk):
     chk.decide(ok, 'no-duplicates', 'evaluator-entry-resets-output', node=f2, file=NB, func='NNPS.get_nearest_neighbors',
                detail_bad='the evaluator entry point does not reset the output before an uncached query (or the cached path is not current_cache.get_neighbors_raw(d_idx, nbrs) under use_cache)',
                detail_ok='c_reset() dominates the query; cached path returns a view')
-    f3 = M.find_func(base, 'get_nearest_particles')
-    idxv = value_of(f3, 'idx')
-    rets = [r for r in ast.walk(f3) if isinstance(r, ast.Return) and isinstance(r.value, ast.Call) and isinstance(r.value.func, ast.Attribute) and r.value.func.attr == 'get_neighbors']
-    ok = len(rets) == 1
-    if ok:
-        c = rets[0].value
-        tbl = c.func.value
-        ok = isinstance(tbl, ast.Subscript) and compact(tbl.value) == 'self.cache' and same(resolve(f3, tbl.slice), 'dst_index*self.narrays+src_index') and \
-            [compact(x) for x in c.args] == ['src_index', 'd_idx', 'nbrs']
-        sw = [i for i in ast.walk(f3) if isinstance(i, ast.If) and same(i.test, 'self.src_index != src_index or self.dst_index != dst_index')]
-        ok = ok and len(sw) == 1 and any(M.call_name(x) == 'self.set_context' and [compact(y) for y in x.args] == ['src_index', 'dst_index'] for x in M.calls(sw[0])) and \
-            sw[0].lineno < rets[0].lineno
-    chk.decide(ok, 'context-wiring', 'cached-entry', node=f3, file=NB, func='NNPSBase.get_nearest_particles',
-               detail_bad='the cached entry does not select cache[dst*narrays + src] after ensuring the context is (src, dst)', detail_ok='cache[dst*narrays+src], context switched when the pair changes')
+    rule_cached_entry(chk)
     init = M.find_func(nn, '__init__')
     M.set_parents(init)
     apps = [c for c in M.calls(init) if isinstance(c.func, ast.Attribute) and c.func.attr == 'append' and c.args and M.call_name(c.args[0]) == 'NeighborCache']
